@@ -11,7 +11,17 @@ leg 1  `cvh replay biffcells`: every behaviour -> real BIFF8 workbook in a compo
 leg 2  `cvh drive biffcells`: random sheets (rows <= 65535, cols <= 255, thousands of cells, random
        words/encodings); Trace_BiffCells.tla re-runs the reader model over the logged records.
 
-sensitivity: see the end of this docstring (filled from bin/mutant runs)
+sensitivity: bin/mutant C02 '<sed>@src/xls.rs' quick -- 10 of 10 killed:
+sensitivity: s/(read_i32(&v\[4..8\]) >> 2) as i64/(read_u32(&v[4..8]) >> 2) as i64/   no sign extension      KILLED
+sensitivity: s/if d100 \&\& v % 100 != 0 {/if d100 \&\& v % 100 == 0 {/              x100 rule inverted     KILLED
+sensitivity: s/let is_int = (rk\[2\] \& 2) != 0;/let is_int = (rk[2] \& 1) != 0;/    flag bits confused     KILLED
+sensitivity: s/let mut col = col_first as u32;/let mut col = col_first as u32 + 1;/  MULRK column arithmetic KILLED
+sensitivity: s/fmla_pos = (row as u32, col as u32);/fmla_pos = (col as u32, row as u32);/ STRING position      KILLED
+sensitivity: s/let i = read_u32(&r\[6..\]) as usize;/let i = read_u32(&r[4..]) as usize;/ LABELSST index offset KILLED
+sensitivity: s/Data::Bool(r\[6\] != 0)/Data::Bool(r[6] == 0)/                         BOOLERR inverted       KILLED
+sensitivity: s/0x24 => ...CellErrorType::Num/0x24 => ...CellErrorType::NA/             error code map         KILLED
+sensitivity: s/v\[4\] \&= 0xFC;//                                                    flag bits leak into the double KILLED
+sensitivity: s/\[0x01, _, b, ../[0x01, b, _, ../ in parse_formula_value                 cached bool byte       KILLED
 """
 import json
 
